@@ -1806,13 +1806,17 @@ def runRecord (p : Prog) (cfg : Run) (fuel : Nat) (r : Fields) : M Unit := do
       | _ => if cfg.isFilter then failM .raise else pure true)
     if b != cfg.invert then emitRec s.cur
 
+/-- The main block over the records of the stream, in order. -/
+def recLoop (p : Prog) (cfg : Run) (fuel : Nat) (recs : List Fields) : M Unit := do
+  for r in recs do runRecord p cfg fuel r
+
 def runAll (p : Prog) (cfg : Run) (fuel : Nat) (filename : Bytes) (recs : List Fields) : M Unit := do
   -- begin blocks run when the first record has arrived: they see NR = FNR = 1 (0 on empty input)
   let first := if recs.isEmpty then 0 else 1
   modify fun s => { s with filename := filename, nr := first, fnr := first }
   for b in p.begins do runBlock p fuel b
   modify fun s => { s with nr := 0, fnr := 0 }
-  for r in recs do runRecord p cfg fuel r
+  recLoop p cfg fuel recs
   modify fun s => { s with cur := [], hasRec := false }
   for b in p.ends do runBlock p fuel b
 
